@@ -4,8 +4,8 @@ from vlib.core import Case, hx
 ID = "C05"
 N = 0xFFFFFFFFFFFFFFFFFFFFFFFFFFFFFFFEBAAEDCE6AF48A03BBFD25E8CD0364141
 RULE = ("op acct.sign <key> <digest> (in one process: try_sign twice, sign, another key signing the same digest, this key signing another digest, then sign/try_sign again — all results for (key, digest) must be equal and the other key's two results too): keys 1,2,n-2,n-1,random; digests 0,1,n-1,n,n+1,2^256-1,random; "
-        "non-trivial = distinct (key, digest); the run must contain both parities and both s halves (counted via extra check); "
-        "judge = independent ECDSA verify + public-key recovery (Spec.Ecdsa) and 1<=r<n, 1<=s<=n/2; equality with the model's RFC 6979 signature")
+        "a corpus of 301 pairs whose signature has a short r or s (60 per quick run); non-trivial = distinct (key, digest); the run must contain both parities and both s halves (counted via extra check); "
+        "judge = independent ECDSA verify + public-key recovery (Spec.Ecdsa), 1<=r<n, 1<=s<=n/2, and for digests below n equality with the RFC 6979 signature computed from Spec.Rfc6979")
 EXHAUSTIVE_SWEEPS = {"quick": ["5 boundary keys x 8 boundary digests"], "thorough": ["5 boundary keys x 8 boundary digests"]}
 ASSUMPTIONS = ["LawfulCurve (prime-order group laws) is a hypothesis of the verify/recover theorems; the concrete secp256k1 is only cross-tested"]
 
@@ -21,6 +21,14 @@ def gen(rng, tier):
         k = rng.choice([rng.randrange(1, N), rng.randrange(1, 2 ** 32), N - rng.randrange(1, 2 ** 32)])
         d = rng.choice([rng.randrange(2 ** 256), rng.randrange(2 ** 256), rng.randrange(N, 2 ** 256), rng.randrange(2 ** 16)])
         cases.append(Case("acct.sign %064x %064x" % (k, d), tags=("random", "digest>=n" if d >= N else "digest<n")))
+    # pairs chosen for what their signature looks like: r or s with leading zero bytes (1.2% of pairs; found once by
+    # tools/gen_c05_corpus.py with an RFC 6979 implementation used for choosing inputs only) — "normalising" such signatures
+    # by re-drawing the nonce, padding or trimming them shows here
+    import os
+    from vlib import core
+    corpus = [l.split() for l in open(os.path.join(core.VERIF, "data", "c05_short_scalars.txt")) if l.strip()]
+    for k, d, rb, sb in (corpus if tier == "thorough" else rng.sample(corpus, 60)):
+        cases.append(Case("acct.sign %s %s" % (k, d), tags=("short-scalar", "r:%s-bytes" % rb if rb != "32" else "s:%s-bytes" % sb)))
     return cases
 
 
